@@ -262,7 +262,16 @@ def step (st : St) (line : String) : St × String :=
         -- sequences over their own (prefix) alphabets of `ms` symbols; `mode` e: explicit alphabet = the current
         -- base alphabet, d: default (the common alphabet of the sequences); nb `a`: default bucket number
         -- (any number >= 1 gives the same observable table: C10_mkTable_exact)
-        match (if nb == "a" then some (some 7) else parseNb nb), parseLists seqs, parseNats ms with
+        -- `ms`: per sequence `m` (prefix alphabet of m symbols) or `f<m>` (m other symbols)
+        let toks := ms.splitOn ","
+        let foreign := toks.map fun t => t.startsWith "f"
+        let msN : Option (List Nat) := toks.mapM fun t => (if t.startsWith "f" then t.drop 1 else t).toNat?
+        let mixed := if mode == "e" then foreign.any id else (foreign.any id && ! foreign.all id)
+        if mixed then
+          -- `_compute_alphabet`: no common alphabet / the given alphabet does not extend a sequence alphabet
+          (st, showErr .valueError)
+        else
+        match (if nb == "a" then some (some 7) else parseNb nb), parseLists seqs, msN with
         | some nb, some seqs, some ms =>
           match parseRefIds refids seqs.length, parseMasks masks seqs.length with
           | some rs, some mks =>
